@@ -1,5 +1,5 @@
 """C03 -- well-formed text decodes to the values the dialect grammar assigns."""
-from .. import tablerules, langrules, parserules, effects, decrules
+from .. import tablerules, langrules, parserules, effects, decrules, hookrules
 
 
 def run(repo, res, tier):
@@ -12,7 +12,7 @@ def run(repo, res, tier):
         "spelling outside the numeric grammar is accepted by decode_decimal (language of int()/float() models); "
         "LEX1 the lexer's end-of-lexeme decision (DFAs derived from the ASTs of lex_continue and the yield condition) never "
         "splits a decimal, based integer or date/time the decoder accepts as one value; "
-        "T6 a comment/white-space run is skipped before every significant token read. "
+        "AGG aggregation_cls builds the group class exactly under a test on group_keywords and the object class exactly under a test on object_keywords; T6 a comment/white-space run is skipped before every significant token read. "
         "Not decided: the denotation of each spelling (values are not computed), lexeme boundaries next to + # -.")
     tablerules.rule_tb1(repo, res)
     effects.rule_e4(repo, res)
@@ -20,6 +20,9 @@ def run(repo, res, tier):
     decrules.rule_n2(repo, res)
     tablerules.rule_tb2_tb4(repo, res)
     tablerules.rule_tb5(repo, res)
+    from .. import hookrules as _hk
+    _hk.rule_token_init(repo, res)
+    hookrules.rule_aggcls(repo, res, rule="AGG")
     an = langrules.analyse(repo)
     langrules.rule_tb8(repo, res, an)
     langrules.rule_lex1(repo, res, an)
